@@ -37,10 +37,10 @@ var csKey2 = []byte("0123456789abcdef0123456789abcdef")
 
 type csBase struct {
 	Method string `json:"method"`
-	Target string `json:"target"` // request-URI: escaped path [? raw query]
-	Body   string `json:"body"`   // payload (plaintext; encrypted on the wire when Type == "1")
+	Target string `json:"target"`        // request-URI: escaped path [? raw query]
+	Body   string `json:"body"`          // payload (plaintext; encrypted on the wire when Type == "1")
 	Gen    string `json:"gen,omitempty"` // "p<pattern>:<len>": generated binary payload instead of Body
-	Type   string `json:"type"`   // "0" plain, "1" encrypted
+	Type   string `json:"type"`          // "0" plain, "1" encrypted
 	TolMs  int64  `json:"tol_ms"`
 	XUri   bool   `json:"xuri"` // request also carries X-Request-Uri = its own (signed) URI, as behind a rewriting proxy
 }
@@ -309,7 +309,7 @@ type csExpect struct {
 	XUriMatches bool // the signature does verify over the X-Request-Uri header's path/query
 }
 
-func csOracle(w csWire, now int64, tolMs int64) csExpect {
+func csOracle(w csWire, now int64, tolMs int64, memo *rsaMemo) csExpect {
 	rej := func(r string) csExpect { return csExpect{Verdict: mustNot, Reason: r} }
 	if w.Header == nil {
 		return rej("no-header")
@@ -326,7 +326,7 @@ func csOracle(w csWire, now int64, tolMs int64) csExpect {
 	if err != nil {
 		return rej("bad-secret")
 	}
-	plain, err := rsaDecryptPKCS1(priv, ct)
+	plain, err := memo.decrypt(a["key"], priv, ct)
 	if err != nil {
 		return rej("bad-secret")
 	}
@@ -465,7 +465,7 @@ func isFourMethods(m string) bool {
 
 // checkCS executes one case (re-running it if the wall-clock second changed underneath) and
 // compares with the oracle.
-func checkCS(c csCase) (*pending, csExpect, csObs) {
+func checkCS(c csCase, memo *rsaMemo) (*pending, csExpect, csObs) {
 	tol := time.Duration(c.Base.TolMs) * time.Millisecond
 	mw := handler.ContentSecurityHandler(csDecrypters, tol, true)
 	var w csWire
@@ -486,7 +486,7 @@ func checkCS(c csCase) (*pending, csExpect, csObs) {
 			return nil, csExpect{Verdict: either, Reason: "clock-unstable"}, obs
 		}
 	}
-	exp := csOracle(w, now, c.Base.TolMs)
+	exp := csOracle(w, now, c.Base.TolMs, memo)
 	fail := func(class, msg string) (*pending, csExpect, csObs) {
 		cc := c
 		return &pending{Class: class, Desc: fmt.Sprintf("%s [%s] expected %s(%s), observed ran=%d status=%d", msg, c.String(), verdictName(exp.Verdict), exp.Reason, obs.Ran, obs.Status),
@@ -588,7 +588,10 @@ func csBases(thorough bool) []csBase {
 
 const stdB64alphabet = "ABCDEFGHIJKLMNOPQRSTUVWXYZabcdefghijklmnopqrstuvwxyz0123456789+/"
 
-func csMutations(b csBase, thorough bool, emit func(csMut)) {
+// full=false restricts the list to the mutations whose outcome depends on the tolerance or on
+// the X-Request-Uri header (timestamp, method, target); the quick tier uses it for the bases
+// that differ from a fully mutated base only in those two parameters.
+func csMutations(b csBase, thorough, full bool, emit func(csMut)) {
 	emit(csMut{Kind: "none"})
 	tol := b.TolMs / 1000
 	// timestamp: consistently signed requests at every boundary of the window
@@ -642,6 +645,19 @@ func csMutations(b csBase, thorough bool, emit func(csMut)) {
 		tset[t] = true
 		emit(csMut{Kind: "target", Arg: t})
 	}
+	if full {
+		csFieldMutations(b, thorough, emit)
+	}
+	// X-Request-Uri
+	if !b.XUri {
+		emit(csMut{Kind: "xuri-set", Arg: "/other?x=1"})
+		emit(csMut{Kind: "xuri-set", Arg: b.Target})
+		emit(csMut{Kind: "xuri-set", Arg: "http://elsewhere" + b.Target})
+		emit(csMut{Kind: "xuri-set", Arg: "%zz"})
+	}
+}
+
+func csFieldMutations(b csBase, thorough bool, emit func(csMut)) {
 	// body
 	wireLen := len(b.Body)
 	if b.Type == "1" && wireLen > 0 {
@@ -717,13 +733,6 @@ func csMutations(b csBase, thorough bool, emit func(csMut)) {
 	emit(csMut{Kind: "header-absent"})
 	for _, h := range []string{"", ";", "key=" + fp1, "key=;secret=;signature=", "garbage"} {
 		emit(csMut{Kind: "header-raw", Arg: h})
-	}
-	// X-Request-Uri
-	if !b.XUri {
-		emit(csMut{Kind: "xuri-set", Arg: "/other?x=1"})
-		emit(csMut{Kind: "xuri-set", Arg: b.Target})
-		emit(csMut{Kind: "xuri-set", Arg: "http://elsewhere" + b.Target})
-		emit(csMut{Kind: "xuri-set", Arg: "%zz"})
 	}
 }
 
